@@ -21,6 +21,8 @@ def reactionClass (b : String) (am : Nat := 0) : Option (Option String) :=   -- 
   -- Y: a success CEA sharing only application 16777999: common exactly when the connection's
   -- dictionary (the client's own, am=3) knows that application
   if b = "Y" then (if am = 3 then some none else some (some "application"))
+  -- R: a success CEA that advertises only the relay application (0xffffffff): common with everything
+  else if b = "R" then some none
   else if b = "S" ∨ b = "Z" ∨ b = "C" then some none   -- Z: success CEA with an application answer right behind it; C: the peer's own CER and an answer first
   else if b = "F" then some (some "failedrc:5012")
   else if b = "M" then some (some "missinghost")
@@ -85,7 +87,9 @@ def judgeDial (d : DictRt) (R cfgK wf : Nat) (behTok postTok : String) (la : Lis
       | some none => (acc.step (.cea .success)).getD acc
       | some (some _) => (acc.step (.cea .failing)).getD acc
       | none => acc) sEnd
-  let nq := (post.filter (· = "Q")).length
+  -- Q: an application answer; D: a DWA from the peer on a client without watchdog - it belongs to
+  -- the application's own "DWA" registration like any other answer
+  let nq := (post.filter (fun p => p = "Q" ∨ p = "D")).length
   let postOut := if outClass = "ok" then
       (if nq = 0 then s!"{if sPost.libClosed ∨ sPost.readerGone then "closed" else "open"},0/0,-"
        else s!"{if sPost.libClosed ∨ sPost.readerGone then "closed" else "open"},{if sPost.hasMeta then nq else 0}/{nq},{if sPost.hasMeta then "meta" else "nometa"}")
@@ -155,10 +159,10 @@ def judgeDial (d : DictRt) (R cfgK wf : Nat) (behTok postTok : String) (la : Lis
     if iOut = "ok" ∧ iClosed = 1 then fails := fails ++ ["C12:transport-closed-after-successful-handshake"]
     if iOut = "ok" ∧ outClass = "ok" then
       if iPost.startsWith "closed" then fails := fails ++ ["C12:connection-closed-by-later-cea"]
-      else if iPost ≠ postOut then fails := fails ++ ["C12:answers-not-dispatched-after-handshake"]
+      else if iPost ≠ postOut then fails := fails ++ ["C12:answers-not-dispatched-after-handshake", "C10:matching-message-not-dispatched-after-the-handshake"]
     if iOut = outClass ∧ iCers ≠ sEnd.cers then fails := fails ++ ["C12:cer-count-differs"]
     if sEnd.cers > 0 ∧ implCer ≠ cerModel ∧ iCers > 0 then fails := fails ++ ["C12:cer-content-differs"]
-    return { model := modelOut, fails := fails.eraseDups.take 4,
+    return { model := modelOut, fails := fails.eraseDups.take 5,
              tags := [s!"dial R={R} out={outClass} cers={sEnd.cers} post={post.length} wf={wf}"] }
 
 /-- `smclient wd r=<R> beh=<cycle/cycle/..> => cycles=<n.n..> same=<0|1> closed=<0|1> dwr=[..]` -/
